@@ -3166,6 +3166,7 @@ LEFT JOIN conversions ON {join_condition}{group_by}{order_clause}{limit_clause}
         # Extract dimension names (without model prefix) and find time granularity
         dim_names = []
         time_granularity = None
+        requested_granularities = []
 
         for dim_ref, gran in parsed_dims:
             # Remove model prefix if present
@@ -3179,6 +3180,8 @@ LEFT JOIN conversions ON {join_condition}{group_by}{order_clause}{limit_clause}
             # Track time granularity for matching
             if gran:
                 time_granularity = gran
+                if gran not in requested_granularities:
+                    requested_granularities.append(gran)
             else:
                 # A time dimension requested without a granularity has no column in a
                 # rollup (rollups store <dimension>_<granularity>): answer from the base table
@@ -3215,6 +3218,18 @@ LEFT JOIN conversions ON {join_condition}{group_by}{order_clause}{limit_clause}
 
         if not preagg:
             return None
+
+        # The rollup was matched on one granularity; when the query asks for several,
+        # it must be able to answer every one of them (otherwise: base table)
+        for gran in requested_granularities:
+            if gran != time_granularity and not matcher.can_satisfy_query(
+                preagg=preagg,
+                query_metrics=metric_names,
+                query_dimensions=dim_names,
+                query_granularity=gran,
+                filters=filter_exprs,
+            ):
+                return None
 
         # Generate SQL against pre-aggregation table
         return self._generate_from_preaggregation(
